@@ -29,6 +29,12 @@ type CrashScenario struct {
 	// OpenCfg, if set, is the configuration used to reopen crash images
 	// (C09: different bit size).
 	Recover func(sc *CrashScenario, img vos.Image, info crashInfo, c *Collector) *Violation
+	// Base, if set, is the directory image the store is first opened on
+	// (C10: a legacy store); Want is the content that open must produce.
+	Base       *vos.Image
+	Want       map[string][]byte
+	BaseKeys   []Key
+	BaseProbes []Key
 	// SkipEmpty: do not explore the crash points of the preamble's last op.
 	SkipEmpty bool
 	// only restricts exploration to one crash image (replay).
@@ -116,8 +122,11 @@ func mutSiteInner(m *vos.Mut) string {
 // newLoggedWorld is NewWorld with mutation logging (and call sites) switched
 // on before the very first Open, so that even the creation of the store is
 // made of crash points.
-func newLoggedWorld(c Config) (*World, error) {
+func newLoggedWorld(c Config, base *vos.Image) (*World, error) {
 	w := &World{Cfg: c, FS: vos.NewMemFS(), Model: make(map[string][]byte), GCInt: 1000 * 3600e9, Sync: 1000 * 3600e9}
+	if base != nil {
+		w.FS = vos.FromImage(*base)
+	}
 	w.FS.MkdirRaw("/s")
 	w.Keys, w.Probes = universe(c)
 	vos.SetBackend(w.FS)
@@ -160,10 +169,16 @@ func (sc *CrashScenario) crashHistory(hist []Op, c *Collector, seen map[[40]byte
 			}
 		}()
 		var err error
-		w, err = newLoggedWorld(sc.Cfg)
+		w, err = newLoggedWorld(sc.Cfg, sc.Base)
 		if err != nil {
 			runErr = viol("open-error", "open: %v", err)
 			return
+		}
+		if sc.BaseKeys != nil {
+			w.Keys, w.Probes = sc.BaseKeys, sc.BaseProbes
+		}
+		if sc.Want != nil {
+			w.Model = copyModel(sc.Want)
 		}
 		models = append(models, copyModel(w.Model))
 		marks = append(marks, w.FS.LogLen())
